@@ -42,3 +42,30 @@ txBody_c    = a:txBody -> bodyPr lstStyle p
 
 def graphic_frame():
     return parse(FRAME, NS, "graphicFrame")
+
+# ECMA-376 Part 1, 19.3.1 (PresentationML shapes): sld -> cSld -> spTree -> (sp | grpSp | graphicFrame | cxnSp | pic)*;
+# grpSp nests; sp -> nvSpPr, spPr, txBody; graphicFrame -> graphic/graphicData/tbl (21.1.3)
+SLIDE = """
+sld         = p:sld -> cSld
+cSld        = p:cSld -> spTree
+spTree      = p:spTree -> nvGrpSpPr grpSpPr sp grpSp graphicFrame pic cxnSp
+nvGrpSpPr   = p:nvGrpSpPr
+grpSpPr     = p:grpSpPr
+grpSp       = p:grpSp -> nvGrpSpPr grpSpPr sp grpSp graphicFrame pic cxnSp
+cxnSp       = p:cxnSp
+pic         = p:pic -> nvPicPr blipFill
+nvPicPr     = p:nvPicPr -> cNvPr
+cNvPr       = p:cNvPr
+blipFill    = p:blipFill -> blip
+blip        = a:blip
+sp          = p:sp -> nvSpPr spPr txBody
+nvSpPr      = p:nvSpPr -> cNvPr nvPr
+nvPr        = p:nvPr -> ph
+ph          = p:ph
+spPr        = p:spPr -> xfrm_a
+xfrm_a      = a:xfrm
+""" + FRAME.replace("graphicFrame = p:graphicFrame -> nvGraphicFramePr xfrm graphic", "graphicFrame = p:graphicFrame -> nvGraphicFramePr xfrm graphic").replace("txBody_c    = a:txBody -> bodyPr lstStyle p", "txBody_c    = a:txBody -> bodyPr lstStyle p\ntxBody      = p:txBody -> bodyPr lstStyle p")
+
+
+def slide():
+    return parse(SLIDE, NS, "sld")
